@@ -34,6 +34,7 @@ def run(idx, rep, tier):
     r1(idx, rep)
     r2(idx, rep)
     r4(idx, rep)
+    K.mutable_defaults(idx, rep, "R2")
     # a member inside a group reads the same modes and the same file as alone: the group drivers seed metadata (collect_when_not_matched)
     # before the member's comment is collected, so the comment must win; and the name the group resolves delivers the content registered last
     from . import c15, c11
